@@ -122,3 +122,26 @@ Proof. vm_compute. reflexivity. Qed.
 Example C05_e1_example :
   exists P, decode_e1 (hex "97f1d3a73197d7942695638c4fa9ac0fc3688c4f9774b905a14e3a3f171bac586c55e83ff97a1aeffb3af00adb22c6bb"%string) = (VALID, P).
 Proof. eexists. vm_compute. reflexivity. Qed.
+
+(* ---- ECDSA key codecs (both curves; the statements are those of Properties/C11.v, generic over the
+   curve operations [O]): accepted private keys are exactly the fixed-width scalars in [1, n-1];
+   accepted raw public keys exactly x || y with x, y < p on the curve; accepted compressed keys exactly
+   02/03 || x with x < p and x^3 + a x + b a square; accept => re-encodes to the input; every produced
+   key encodes to bytes that decode back to it. *)
+From V Require Properties.C11.
+Theorem C05_ecdsa_private_key_codec :
+  ltac:(let t := type of (@C11.C11_private_key_codec) in exact t).
+Proof. exact (@C11.C11_private_key_codec). Qed.
+Print Assumptions C05_ecdsa_private_key_codec.
+Theorem C05_ecdsa_public_key_codec :
+  ltac:(let t := type of (@C11.C11_public_key_codec) in exact t).
+Proof. exact (@C11.C11_public_key_codec). Qed.
+Print Assumptions C05_ecdsa_public_key_codec.
+Theorem C05_ecdsa_compressed_key_codec :
+  ltac:(let t := type of (@C11.C11_compressed_key_codec) in exact t).
+Proof. exact (@C11.C11_compressed_key_codec). Qed.
+Print Assumptions C05_ecdsa_compressed_key_codec.
+Theorem C05_ecdsa_compressed_accept_iff_on_curve :
+  ltac:(let t := type of (@C11.C11_compressed_accept_iff_on_curve) in exact t).
+Proof. exact (@C11.C11_compressed_accept_iff_on_curve). Qed.
+Print Assumptions C05_ecdsa_compressed_accept_iff_on_curve.
